@@ -1,6 +1,8 @@
 package core
 
 import (
+	"fmt"
+	"os"
 	"go/token"
 	"go/types"
 	"sort"
@@ -668,24 +670,40 @@ func (p *Prog) WithinOnly(fn *ssa.Function, pred func(*ssa.Function) bool, depth
 		return p.WithinOnly(par, pred, depth-1)
 	}
 	if p.addrTakenFn(fn) {
+		if os.Getenv("PV_DEBUG") != "" {
+			fmt.Fprintln(os.Stderr, "WithinOnly: address taken:", fn)
+		}
 		return false
 	}
-	sites := p.StaticCallSites(fn)
-	if len(sites) == 0 {
-		return false
-	}
-	for _, s := range sites {
+	n := 0
+	for _, s := range p.StaticCallSites(fn) {
+		if par := s.Parent(); par.Pos().IsValid() && !IsProdFile(p.File(par.Pos())) {
+			continue // tests may call a helper directly
+		}
+		if par := s.Parent(); par.Synthetic != "" && len(p.StaticCallSites(par)) == 0 && !p.addrTakenFn(par) {
+			continue // a promoted-method wrapper nobody uses
+		}
+		n++
 		if !p.WithinOnly(s.Parent(), pred, depth-1) {
+			if os.Getenv("PV_DEBUG") != "" {
+				fmt.Fprintln(os.Stderr, "WithinOnly: site not within:", fn, "called from", s.Parent())
+			}
 			return false
 		}
 	}
-	return true
+	if os.Getenv("PV_DEBUG") != "" && n == 0 {
+		fmt.Fprintln(os.Stderr, "WithinOnly: no call sites:", fn)
+	}
+	return n > 0
 }
 
 // addrTakenFn: the function is used as a value somewhere in pandora (stored, passed, bound).
 func (p *Prog) addrTakenFn(fn *ssa.Function) bool {
 	taken := false
 	for _, g := range p.pandoraFuncs() {
+		if g.Pos().IsValid() && !IsProdFile(p.File(g.Pos())) {
+			continue
+		}
 		EachInstr(g, func(in ssa.Instruction) {
 			for _, op := range in.Operands(nil) {
 				if op == nil || *op != ssa.Value(fn) {
